@@ -2306,6 +2306,38 @@ fn gen_manager_moved(out: &mut Out) {
     }
 }
 
+/// M17: the real `DefaultHasher` against the SipHash-1-3 model on names of every byte length 0..=40 (and a
+/// few long ones), ASCII and multi-byte contents, all-equal and random: the driver recomputes every value
+fn gen_sip(out: &mut Out, seed: u64, per_len: u64) {
+    let mut rng = Rng::new(seed ^ 0x51B);
+    let alphabet: Vec<char> = "abcXYZ019 _/:-\u{0}\u{7f}\u{e9}\u{df}\u{20ac}\u{4e2d}\u{1f600}".chars().collect();
+    let mut names: Vec<String> = vec![];
+    for len in (0..=40usize).chain([63, 64, 65, 127, 128, 129, 255, 256, 257, 1000]) {
+        names.push("a".repeat(len));
+        names.push("\u{ff}".repeat(len / 2));
+        for _ in 0..per_len {
+            let mut s = String::new();
+            while s.len() < len {
+                let c = *rng.pick(&alphabet);
+                if s.len() + c.len_utf8() <= len {
+                    s.push(c);
+                } else {
+                    s.push('x');
+                }
+            }
+            names.push(s);
+        }
+    }
+    for chunk in names.chunks(200) {
+        let mut sim = Sim::new();
+        sim.exec("birth new -", out);
+        sim.hash_lines(chunk, out);
+        out.nontrivial();
+        out.count("sip-sweep-batches");
+    }
+    out.count_n("sip-sweep-names", names.len() as u64);
+}
+
 pub fn run(args: &Args, out: &mut Out) -> &'static str {
     install_hook();
     check_constants();
@@ -2320,6 +2352,7 @@ pub fn run(args: &Args, out: &mut Out) -> &'static str {
     gen_simple_panics(out);
     gen_collisions(out, &mut rng, if th { 40 } else { 12 });
     gen_random(out, &mut rng, if th { 80000 } else { 2000 });
+    gen_sip(out, args.seed, if th { 200 } else { 12 });
     RULE
 }
 
